@@ -435,7 +435,7 @@ func (in *interp) equalsT(t types.Type, x, y value) *term {
 	case complex128:
 		return mkBool(x == y.(complex128))
 	case string, symStr:
-		return tEq(strTerm(x), strTerm(y))
+		return tEq(in.rs(strTerm(x)), in.rs(strTerm(y)))
 	case *value:
 		if yy, ok := y.(*value); ok {
 			return mkBool(x == yy)
